@@ -93,7 +93,7 @@ fn h_mask() {
     assert_eq!(m.usable_ips(), if w <= 1 { 0 } else { w - 1 });
 }
 
-//# id=net.contains_overlaps fns=Ipv4Net::new+id+broadcast+contains+overlaps+range+new_1 props=C09 kind=complete pair=subnet.Ipv4Net.new.establishes_invariant,subnet.Ipv4Net.new.id_is_masked_ip,subnet.Ipv4Net.new.contains_its_seed,subnet.Ipv4Net.broadcast.last_address,subnet.Ipv4Net.broadcast.safety,subnet.Ipv4Net.contains.exactly_id_to_broadcast,subnet.Ipv4Net.overlaps.iff_ranges_intersect,subnet.Ipv4Net.range.id_to_broadcast,subnet.Ipv4Net.new_1.single_address
+//# id=net.contains_overlaps fns=Ipv4Net::new+id+broadcast+contains+overlaps+range+new_1+from((Ipv4Address,Ipv4Mask))+mask props=C09 kind=complete pair=subnet.Ipv4Net.new.establishes_invariant,subnet.Ipv4Net.new.id_is_masked_ip,subnet.Ipv4Net.new.contains_its_seed,subnet.Ipv4Net.broadcast.last_address,subnet.Ipv4Net.broadcast.safety,subnet.Ipv4Net.contains.exactly_id_to_broadcast,subnet.Ipv4Net.overlaps.iff_ranges_intersect,subnet.Ipv4Net.range.id_to_broadcast,subnet.Ipv4Net.new_1.single_address
 #[cfg_attr(kani, kani::proof)]
 #[cfg_attr(vx_replay, test)]
 fn h_net() {
@@ -115,6 +115,9 @@ fn h_net() {
     assert!(r.start().to_u32() == lo && r.end().to_u32() == hi);
     let one = Ipv4Net::new_1(Ipv4Address::from(ip));
     assert!(one.id().to_u32() == ip && one.broadcast().to_u32() == ip);
+    // the tuple conversion used by the CIDR parser builds the same network
+    assert!(Ipv4Net::from((Ipv4Address::from(ip), mask)) == net);
+    assert!(net.mask() == mask);
 }
 
 //# id=net.try_from_range fns=Ipv4Net::try_from(RangeInclusive) props=C09 kind=complete pair=subnet.Ipv4Net.try_from_range.iff_aligned_power_of_two_block,subnet.Ipv4Net.try_from_range.returns_that_network,subnet.Ipv4Net.try_from_range.safety
